@@ -54,7 +54,7 @@ def run_tlc(module, cfg, workers=None, timeout=600, extra_args=(), spec_dir=SPEC
         scratch = make_scratch()
     res.scratch = scratch
     for f in os.listdir(spec_dir):
-        if f.endswith(".tla") or f.endswith(".cfg"):
+        if (f.endswith(".tla") or f.endswith(".cfg")) and os.path.abspath(spec_dir) != os.path.abspath(scratch):
             shutil.copy(os.path.join(spec_dir, f), os.path.join(scratch, f))
     if os.path.isabs(cfg):
         if os.path.dirname(cfg) != scratch:
